@@ -1,0 +1,61 @@
+//go:build verif
+
+// Contracts for package bayes (machine-checked by /verif/engine; comment-only file).
+package bayes
+
+// The score of a candidate is a function of the (unchanged) model, the candidate and the token set;
+// the floating point computation itself is outside the verified set (trusted, floats as reals).
+//@ spec candScore(m *Model, candidate string, tokens mapref) float64
+//@ func (*Model).scoreCandidate
+//@   trusted
+//@   modifies nothing
+//@   ensures result == candScore(m, candidate, tokens) && result > neginf()
+//
+//@ func tokenize
+//@   trusted
+//@   modifies nothing
+//@   ensures fresh(result) && result != nil
+//
+// inferAccount: the chosen account is a key of the training model, differs from the other account of
+// the booking, has the maximal score and - among candidates of maximal score - the smallest name (so
+// the choice does not depend on map iteration order); it is returned as a synthetic range over its own
+// text. Without any candidate the result is the empty range.
+//@ def cand(m *Model, c string, other string) bool := (c in m.countByAccount) && c != other
+//@ func (*Model).inferAccount
+//@   requires m != nil && t != nil && b != nil && m.countByAccount != nil
+//@   modifies nothing
+//@   callback tokenize=0
+//@   ensures [C15] @range: result.Range.Start == 0 && result.Range.End == len(result.Range.Text) && !result.Macro
+//@   ensures [C15] @nocand: (forall c string :: {key(m.countByAccount, c)} !cand(m, c, other)) ==> result.Range.End == 0
+//@   ensures [C15] @member: (exists c string :: cand(m, c, other)) ==> cand(m, result.Range.Text, other)
+//@   ensures [C15] [C06] @best: forall c string :: {key(m.countByAccount, c)} cand(m, c, other) && c != result.Range.Text ==>
+//@        candScore(m, c, tres("tokenize", old(tlen()))) < candScore(m, result.Range.Text, tres("tokenize", old(tlen())))
+//@        || (candScore(m, c, tres("tokenize", old(tlen()))) == candScore(m, result.Range.Text, tres("tokenize", old(tlen()))) && result.Range.Text < c)
+//@   loop 1 invariant tlen() == old(tlen()) + 1 && tokens == tres("tokenize", old(tlen()))
+//@   loop 1 invariant (forall c string :: {$seen[c]} $seen[c] ==> !cand(m, c, other)) ==> best == "" && max == neginf()
+//@   loop 1 invariant (exists c string :: $seen[c] && cand(m, c, other)) ==> $seen[best] && cand(m, best, other) && max == candScore(m, best, tokens)
+//@   loop 1 invariant [C15] [C06] @tie: forall c string :: {$seen[c]} $seen[c] && cand(m, c, other) && c != best ==>
+//@        candScore(m, c, tokens) < candScore(m, best, tokens) || (candScore(m, c, tokens) == candScore(m, best, tokens) && best < c)
+//
+// Infer: only accounts that equal the placeholder are replaced; every other field of every booking, and
+// a placeholder for which the model has no candidate, stays as it was; a replaced account is printable.
+//@ func (*Model).Infer
+//@   requires m != nil && t != nil && m.countByAccount != nil && (forall i int :: {t.Bookings[i].Range.Start} 0 <= i && i < len(t.Bookings) ==> prBooking(t.Bookings[i]))
+//@   modifies elems(t.Bookings)
+//@   ensures [C15] @printable: forall i int :: {t.Bookings[i].Range.Start} 0 <= i && i < len(t.Bookings) ==> prBooking(t.Bookings[i])
+//@   ensures [C15] @only: forall i int :: {t.Bookings[i].Range.Start} 0 <= i && i < len(t.Bookings) ==>
+//@        t.Bookings[i].Range == old(t.Bookings[i].Range) && t.Bookings[i].Quantity == old(t.Bookings[i].Quantity) && t.Bookings[i].Commodity == old(t.Bookings[i].Commodity)
+//@        && (old(t.Bookings[i].Credit.Range.Text[t.Bookings[i].Credit.Range.Start:t.Bookings[i].Credit.Range.End]) != m.account ==> t.Bookings[i].Credit == old(t.Bookings[i].Credit))
+//@        && (old(t.Bookings[i].Debit.Range.Text[t.Bookings[i].Debit.Range.Start:t.Bookings[i].Debit.Range.End]) != m.account ==> t.Bookings[i].Debit == old(t.Bookings[i].Debit))
+//@   ensures [C15] @nonempty: forall i int :: {t.Bookings[i].Range.Start} 0 <= i && i < len(t.Bookings) ==>
+//@        (t.Bookings[i].Credit != old(t.Bookings[i].Credit) ==> t.Bookings[i].Credit.Range.End > 0) && (t.Bookings[i].Debit != old(t.Bookings[i].Debit) ==> t.Bookings[i].Debit.Range.End > 0)
+//@   loop 1 invariant 0 <= $i && $i <= len(t.Bookings) && len(t.Bookings) == old(len(t.Bookings)) && t.Bookings == old(t.Bookings)
+//@   loop 1 invariant forall i int :: {t.Bookings[i].Range.Start} 0 <= i && i < len(t.Bookings) ==> prBooking(t.Bookings[i])
+//@   loop 1 invariant forall i int :: {t.Bookings[i].Range.Start} $i <= i && i < len(t.Bookings) ==> t.Bookings[i] == old(t.Bookings[i])
+//@   loop 1 invariant forall i int :: {t.Bookings[i].Range.Start} 0 <= i && i < $i ==>
+//@        t.Bookings[i].Range == old(t.Bookings[i].Range) && t.Bookings[i].Quantity == old(t.Bookings[i].Quantity) && t.Bookings[i].Commodity == old(t.Bookings[i].Commodity)
+//@   loop 1 invariant forall i int :: {t.Bookings[i].Range.Start} 0 <= i && i < $i ==>
+//@        (old(t.Bookings[i].Credit.Range.Text[t.Bookings[i].Credit.Range.Start:t.Bookings[i].Credit.Range.End]) != m.account ==> t.Bookings[i].Credit == old(t.Bookings[i].Credit))
+//@        && (old(t.Bookings[i].Debit.Range.Text[t.Bookings[i].Debit.Range.Start:t.Bookings[i].Debit.Range.End]) != m.account ==> t.Bookings[i].Debit == old(t.Bookings[i].Debit))
+//@   loop 1 invariant [C15] @nonempty: forall i int :: {t.Bookings[i].Range.Start} 0 <= i && i < $i ==>
+//@        (t.Bookings[i].Credit != old(t.Bookings[i].Credit) ==> t.Bookings[i].Credit.Range.End > 0) && (t.Bookings[i].Debit != old(t.Bookings[i].Debit) ==> t.Bookings[i].Debit.Range.End > 0)
